@@ -31,6 +31,9 @@ def obligations(tier, seed):
     for i, (sc, args) in enumerate(SCRIPTS):
         for mode in (('out',) if (tier == 'quick' and i % 3) else ('out', 'in', 'both')):
             obs.append(dict(name='run/%s/args%s/%s' % (sc, '.'.join(map(str, args)), mode), kind='run', script=sc, args=args, mode=mode, opts=[]))
+    # the quiet option must not change result or exit status: every template once more with -q / --quiet (seed C08-3: -q turned script failures into exit 0)
+    for i, (sc, args) in enumerate(SCRIPTS):
+        obs.append(dict(name='run/%s/args%s/%s/%s' % (sc, '.'.join(map(str, args)), 'out' if i % 2 else 'in', '-q' if i % 3 else '--quiet'), kind='run', script=sc, args=args, mode='out' if i % 2 else 'in', opts=['-q' if i % 3 else '--quiet']))
     obs.append(dict(name='run/OP_ADD/args1.1/out/-q', kind='run', script='OP_ADD', args=[1, 1], mode='out', opts=['-q']))
     obs.append(dict(name='run/OP_ADD/args5.1/out/-q', kind='run', script='OP_ADD', args=[5, 1], mode='out', opts=['--quiet']))
     obs.append(dict(name='run/OP_1/dec-args', kind='run', script='OP_ADD', args=['d2', 'd1'], mode='out', opts=[]))
